@@ -258,6 +258,9 @@ func (s *Storage) GetMetadataSigningKey(context.Context) (*key.CertificateAndKey
 	}
 	if k := s.KeyFaults["GetMetadataSigningKey"][s.counts["GetMetadataSigningKey"]]; k != "" {
 		s.Calls[len(s.Calls)-1].KeyFault = k
+		if k == "errwithrecord" {
+			return s.applyKeyFault("GetMetadataSigningKey", k), errors.New("injected fault (a record is returned with it): GetMetadataSigningKey")
+		}
 		return s.applyKeyFault("GetMetadataSigningKey", k), nil
 	}
 	if s.MetaKeyNil {
@@ -283,6 +286,9 @@ func (s *Storage) GetResponseSigningKey(ctx context.Context) (*key.CertificateAn
 	}
 	if k := s.KeyFaults["GetResponseSigningKey"][s.counts["GetResponseSigningKey"]]; k != "" {
 		s.Calls[len(s.Calls)-1].KeyFault = k
+		if k == "errwithrecord" {
+			return s.applyKeyFault("GetResponseSigningKey", k), errors.New("injected fault (a record is returned with it): GetResponseSigningKey")
+		}
 		return s.applyKeyFault("GetResponseSigningKey", k), nil
 	}
 	if s.RespKeyNil {
